@@ -1570,7 +1570,7 @@ class Solid:
                 is_cordon = True
             elif v.name == 'color':
                 editor_color = Vec.from_str(v.value, 255, 255, 255)
-            elif v.name == 'group':
+            elif v.name == 'groupid' or v.name == 'group':
                 group_id = int(v.value)
             elif v.name == 'visgroupid':
                 try:
@@ -2702,7 +2702,7 @@ class Entity(MutableMapping[str, str]):
                             logical_pos = editor_prop.value
                         elif editor_prop.name == 'comments':
                             comment = editor_prop.value
-                        elif editor_prop.name == 'group':
+                        elif editor_prop.name == 'groupid' or editor_prop.name == 'group':
                             group_ids.append(int(editor_prop.value))
                         elif editor_prop.name == 'visgroupid':
                             try:
@@ -2801,7 +2801,7 @@ class Entity(MutableMapping[str, str]):
                     buffer,
                     ind=ind+'\t',
                     disp_multiblend=disp_multiblend,
-                    include_groups=not _is_worldspawn,
+                    include_groups=_is_worldspawn,
                 )
         if len(self.outputs) > 0:
             buffer.write(ind + '\tconnections\n')
